@@ -360,6 +360,10 @@ func TestC06(t *testing.T) {
 		for i, n := 0, gen.Int(t, 0, 6, "nchunks"); i < n; i++ {
 			c.Req.Chunks = append(c.Req.Chunks, gen.Pick(t, "chunk", []int{0, 1, 2, 3, 7, 64, 4096}))
 		}
+		c.Req.EOFData = gen.Chance(t, 30, "eofdata")
+		if gen.Chance(t, 10, "failat") {
+			c.Req.FailAt = gen.Int(t, 1, 4, "failatk")
+		}
 		viol := checkC06(c)
 		toks, _ := gen.Tokenize(string(c.Req.Src))
 		nt := len(toks) >= 3 || c.Family == "limit"
@@ -370,7 +374,7 @@ func TestC06(t *testing.T) {
 		if !c.Req.Exec {
 			feats = append(feats, "not-executed(repetition possible)")
 		}
-		rec.Case(nt, harness.Hash(c.Req.Src, fmt.Sprint(c.Req.Chunks)), feats...)
+		rec.Case(nt, harness.Hash(c.Req.Src, fmt.Sprint(c.Req.Chunks, c.Req.EOFData, c.Req.FailAt)), feats...)
 		if nt {
 			rec.Sample(func() any {
 				return map[string]any{"family": c.Family, "note": c.Note, "src": clip(string(c.Req.Src), 200), "chunks": c.Req.Chunks}
